@@ -162,8 +162,13 @@ Exit ==
 \* a configuration value that is present but unusable, a reference filter that cannot be built
 \* (between option parsing and the scan), or data the scan cannot accept although the command that
 \* delivered it succeeded (a missing or malformed object: after the first or the second pipeline)
+\* ...or the answer of a successful `rev-parse --verify` that is not an object id (ROOT "^rev": git prints
+\* "^<oid>" and exits 0; git-sizer refuses it), right after that command
 Reject ==
-  /\ exit = -1 /\ pc \in {"cfg_thr", "cfg_names", "cfg_prog", "refs", "batch", "report"}
+  /\ exit = -1
+  /\ \/ pc \in {"cfg_thr", "cfg_names", "cfg_prog", "refs", "batch", "report"}
+     \/ pc = "verify" /\ nver > 0
+     \/ pc = "pipe1" /\ nver > 0 /\ p1 = {}
   /\ Finish(1, "none")
   /\ UNCHANGED <<opts, repo, nver, ncfg, p1, p1fail, made, failed>>
 
